@@ -2,10 +2,10 @@ package checks
 
 import (
 	"context"
-	"sort"
 	"fmt"
 	"math/rand"
 	"regexp"
+	"sort"
 	"strings"
 
 	"bwverif/bq"
